@@ -3,8 +3,13 @@ import json
 import os
 import random
 
+import binsrv
 import common
 import srv
+import hashlib
+import re
+import subprocess
+import time
 
 PATH_OPS = ["OPEN_DIR", "STAT_FILE", "OPEN_FILE", "GET_DIR_SIZE", "CREATE_FILE", "DELETE_FILE", "MKDIR", "RMDIR"]
 SPELLINGS = ["abs", "rel", "trailing"]   # "." reaches the library only as an absolute path (kong existingdir); the binary-level run covers it
@@ -44,6 +49,119 @@ def hostile_paths(rng, n):
     out.append(b"/***DVD***../g-other/sub".hex())
     out.append(b"/***PS3***../g-other/sub".hex())
     return out
+
+
+ESCAPES = ["/../up.txt", "../up.txt", "/../g-other/secret", "../g-other/secret", "/a/../../g-other/sub/deep", "/../g-other", "../g-other/sub",
+           "/../../../../../../etc/passwd", "../../../../../../../etc/passwd", "/***DVD***/../g-other", "/***DVD***../g-other", "/***PS3***/../../g-other/sub",
+           "/../g-other/secret.iso", "/PS3ISO/../../g-other/secret.iso", "/a/./../..//g-other//secret", "/..", "..", "/../g", "/../g/a/f1"]
+FILE_SYSCALLS = ("open", "openat", "openat2", "stat", "lstat", "newfstatat", "statx", "unlink", "unlinkat", "mkdir", "mkdirat", "rmdir", "rename", "renameat",
+                 "renameat2", "readlink", "readlinkat", "access", "faccessat", "faccessat2", "truncate", "chmod", "fchmodat", "utimensat", "creat", "link",
+                 "linkat", "symlink", "symlinkat", "chdir", "getxattr", "lgetxattr")
+
+
+def tree_digest(base, skip):
+    h = hashlib.sha256()
+    for d, dirs, files in sorted(os.walk(base)):
+        if d == skip or d.startswith(skip + os.sep):
+            dirs[:] = []
+            continue
+        dirs.sort()
+        for f in sorted(files):
+            p = os.path.join(d, f)
+            st = os.lstat(p)
+            h.update(("%s|%d|%d|%o\n" % (p, st.st_size, st.st_mtime_ns, st.st_mode)).encode())
+            if os.path.isfile(p) and not os.path.islink(p):
+                h.update(open(p, "rb").read())
+        for x in dirs:
+            st = os.lstat(os.path.join(d, x))
+            h.update(("%s|dir|%o\n" % (os.path.join(d, x), st.st_mode)).encode())
+    return h.hexdigest()
+
+
+def binary_run(binary, proto, scratch, idx, spelling, aw, rng):
+    """Start the real binary under strace with the root spelled as the operator might, send escaping requests with every
+    path-carrying opcode, and report every path the process handed to a file system call afterwards."""
+    base = os.path.join(scratch, "bin%d" % idx)
+    root = os.path.join(base, "g")
+    os.makedirs(os.path.join(root, "a"))
+    os.makedirs(os.path.join(root, "PS3ISO"))
+    os.makedirs(os.path.join(base, "g-other", "sub"))
+    os.makedirs(os.path.join(base, "elsewhere"))
+    for p, c in ((os.path.join(root, "a", "f1"), "inside-f1"), (os.path.join(root, "marker.txt"), "m"), (os.path.join(base, "up.txt"), "OUTSIDE-up"),
+                 (os.path.join(base, "g-other", "secret"), "OUTSIDE-secret"), (os.path.join(base, "g-other", "secret.iso"), "OUTSIDE-iso"),
+                 (os.path.join(base, "g-other", "secret.dkey"), "00112233445566778899aabbccddeeff"), (os.path.join(base, "g-other", "sub", "deep"), "OUTSIDE-deep")):
+        open(p, "w").write(c)
+    cwd, arg = {"abs": (os.path.join(base, "elsewhere"), root), "rel": (base, "g"), "dot": (root, "."), "trailing": (base, "g/"),
+                "default": (root, None), "updown": (root, "../g"), "dotslash": (base, "./g/./")}[spelling]
+    before = tree_digest(base, root)
+    aux = os.path.join(scratch, "strace%d" % idx)     # kept outside the sentinel zone
+    os.makedirs(aux)
+    st_out = os.path.join(aux, "strace.txt")
+    args = ["server", "--listen-addr", "127.0.0.1:0", "--json-log"] + (["--root", arg] if arg is not None else []) + (["--allow-write"] if aw else [])
+    wrapper = os.path.join(aux, "straced.sh")
+    open(wrapper, "w").write("#!/bin/sh\nexec strace -f -qq -e trace=%%file -o %s %s \"$@\"\n" % (st_out, binary))
+    os.chmod(wrapper, 0o755)
+    s = binsrv.Server(wrapper, args, cwd=cwd, timeout=15.0)
+    try:
+        if not s.addr:
+            return None, "server did not start (%s): %s" % (spelling, " | ".join((s.err + s.lines)[-3:])[:400])
+        c = binsrv.Client(s.addr)
+        c.send(proto.encode("STAT_FILE", path="/__verif_start_marker__"))
+        c.recv_exact(proto.fixed_len("STAT_FILE"), 3.0)
+        answers = []
+        for op in PATH_OPS:
+            if op in ("CREATE_FILE", "DELETE_FILE", "MKDIR", "RMDIR") and not aw and rng.random() < 0.5:
+                continue
+            for path in ESCAPES:
+                c.send(proto.encode(op, path=path))
+                b, stt = c.recv_exact(proto.fixed_len(op), 3.0)
+                if stt != "ok":
+                    c.close()
+                    c = binsrv.Client(s.addr)
+                answers.append((op, path, b.hex() if stt == "ok" else stt))
+                if op == "OPEN_FILE" and stt == "ok" and int.from_bytes(b[:8], "big", signed=True) >= 0:
+                    c.send(proto.encode("READ_FILE", limit=64, off=0))
+                    hb, _ = c.recv_exact(4, 3.0)
+                    n = int.from_bytes(hb, "big", signed=True) if len(hb) == 4 else -1
+                    data, _ = c.recv_exact(max(0, n), 3.0)
+                    answers.append(("READ_FILE", path, data.hex()))
+        c.close()
+        time.sleep(0.2)
+        crashed, txt = s.crashed()
+        alive = s.alive()
+    finally:
+        s.stop()
+    after = tree_digest(base, root)
+    # paths handed to file system calls after the marker, relative to the scratch base
+    paths, seen, started = [], set(), False
+    pat = re.compile(r'^(?:\d+\s+)?(\w+)\((.*)$')
+    for line in open(st_out, errors="replace"):
+        if "__verif_start_marker__" in line:
+            started = True
+            continue
+        if not started:
+            continue
+        m = pat.match(line)
+        if not m or m.group(1) not in FILE_SYSCALLS:
+            continue
+        for q in re.findall(r'"((?:[^"\\\\]|\\\\.)*)"', m.group(2))[:2]:
+            q = q.encode().decode("unicode_escape", "replace") if "\\" in q else q
+            full = os.path.normpath(q if q.startswith("/") else os.path.join(cwd, q))
+            if full in seen:
+                continue
+            seen.add(full)
+            if full == base or full.startswith(base + os.sep):
+                rel = os.path.relpath(full, base)
+                paths.append([x if all(31 < ord(ch) < 127 and ch not in '"\\~' for ch in x) else "~odd" for x in rel.split(os.sep)])
+            elif full.startswith(("/etc/passwd", "/etc/shadow", "/root/", "/home/")):
+                paths.append(["~canary", full.replace("/", "_")])
+    outside_data = [a for a in answers if "4f555453494445" in a[2]]     # "OUTSIDE" in any payload
+    events = [{"ev": "World", "name": "binary-%s" % spelling, "aw": aw, "nodes": [], "views": [], "root": spelling, "index": idx, "timeoutMs": 0, "libPanics": []},
+              {"ev": "RealPaths", "rootName": "g", "paths": paths, "spelling": spelling, "leaked": [list(a) for a in outside_data[:5]]},
+              {"ev": "Sentinel", "same": before == after and not outside_data}]
+    if crashed or not alive:
+        return None, "server died under strace: " + txt[-300:]
+    return events, None
 
 
 def run(tier, seed, replay=None):
@@ -134,11 +252,35 @@ def run(tier, seed, replay=None):
             worlds.append({"name": "history-%d" % i, "aw": True, "nodes": inside_tree(t), "sentinel": True, "ledgerBelow": True,
                            "rootSpelling": rng.choice(SPELLINGS), "conns": [{"id": 1, "reqs": pre}, {"id": 2, "reqs": pre[:5] + esc}]})
         srv.run_and_validate(ctx, worlds, rep, max_rejections=12)
+        # the real binary, root spelled as an operator might (incl. the default "."), under strace
+        binary = common.build_binary(scratch)
+        bproto = binsrv.Proto(proto)
+        spellings = ["abs", "rel", "dot", "trailing", "default", "updown", "dotslash"]
+        for i, sp in enumerate(spellings if full else ["dot", "default", rng.choice(["abs", "rel", "trailing", "updown", "dotslash"])]):
+            for aw in ((False, True) if full else (True,)):
+                events, err = binary_run(binary, bproto, scratch, i * 2 + int(aw), sp, aw, rng)
+                if err:
+                    raise common.CheckError(err)
+                tp = os.path.join(specdir, "trace.ndjson")
+                common.write_ndjson(tp, events)
+                v = common.validate_trace(specdir, "Ps3NetSrvTrace.tla", "TR_Ps3NetSrv.cfg", tp, len(events), timeout=600)
+                rep.add_tlc(v.res)
+                if v.accepted:
+                    rep.cov["traces_validated_against_impl"] += 1
+                    rep.cov["evaluations"] += len(events[1]["paths"])
+                else:
+                    bad = events[v.hwm]
+                    off = [p for p in bad.get("paths", []) if p[:1] != ["g"]]
+                    rep.violation("binary:%s:%s" % (bad["ev"], sp), "real binary, root spelled %r (allow-write=%s): %s\npaths outside the root handed to file system calls: %s\nleaked: %s" % (
+                        sp, aw, "sentinel zone changed or outside content served" if bad["ev"] == "Sentinel" else "a path outside the root reached the operating system",
+                        json.dumps(off[:10]), json.dumps(events[1].get("leaked"))), {"events.json": events})
         rep.cov["rule"] = ("all wire paths of <= 4 segments over {.., ., '', a, f1, g-other, secret, nope, ***DVD***} with and without "
                            "leading slash x the 8 path-carrying opcodes (sampled in quick), hostile byte strings (NUL, 64 KiB, doubled "
                            "separators), escaping paths after random histories; root spelled absolute/relative/./trailing-slash/./g/.; "
                            "oracles: responses explained by the inside tree only, real paths seen below BasePathFs under the root, "
-                           "sentinel zone bit-identical; distinct_nontrivial = worlds accepted")
+                           "sentinel zone bit-identical; plus the real binary under strace with the root given as absolute / relative / '.' / "
+                           "default / trailing slash / '../g' / './g/.': every path argument of a file system call after start-up must lie under "
+                           "the root; distinct_nontrivial = worlds accepted")
         rep.cov["distinct_nontrivial"] = rep.cov["traces_validated_against_impl"]
         rep.cov["wire_paths"] = len(wires)
         rep.cov["exhaustive"] = full
